@@ -249,7 +249,7 @@ func c15(c *Ctx) {
 			bad := ""
 			for _, b := range rec.Blocks {
 				if r, ok := b.Instrs[len(b.Instrs)-1].(*ssa.Return); ok && cfgx.InstrReaches(parse[0], r, nil) {
-					if !recv.Block().Dominates(b) {
+					if !cfgx.MustPass(recv.Block(), b) {
 						bad = c.pos(r.Pos())
 					}
 				}
@@ -284,7 +284,7 @@ func c15(c *Ctx) {
 					if _, isDbg := r.(*ssa.DebugRef); isDbg {
 						continue
 					}
-					if !recv.Block().Dominates(r.Block()) {
+					if !cfgx.MustPass(recv.Block(), r.Block()) {
 						okUse = false
 					}
 				}
